@@ -41,7 +41,7 @@ def main(tier, replay=None):
         i, o = fmts.split("->")
         ref = E.clobber_reference(root, cfg, i, o, 1 if lg == "log" else 0)
         traces = [E.clobber_case({"tid": 1, "ref": ref, "root": root, "cfg": cfg, "in_fmt": i, "out_fmt": o, "log": 1 if lg == "log" else 0,
-                                  "pre": tr["pre"], "clobber": tr["clobber"], "empty": 1 if tr["cfg"].endswith("empty-files") else 0})]
+                                  "pre": tr["pre"], "clobber": tr["clobber"], "empty": 1 if "empty-files" in tr["cfg"] else 0, "rerun": 1 if "after-an-earlier-run" in tr["cfg"] else 0})]
         jr = C.judge("ClobberTrace", traces, run.dir, consts="N = 1 MaxPre = 1", spec="TraceSpec")
         C.finish(run, "C16", C.report(run, "C16", jr["V"], {1: traces[0]}))
     for k, (cfg, i, o, lg) in enumerate(plan["cfgs"]):
@@ -54,6 +54,9 @@ def main(tier, replay=None):
             scen.append({"ref": ref, "root": root, "cfg": cfg, "in_fmt": i, "out_fmt": o, "log": lg, "pre": ob["pre"], "clobber": ob["clobber"]})
             if ob["pre"] and (len(ob["pre"]) == 1 or tier == "thorough"):
                 scen.append({"ref": ref, "root": root, "cfg": cfg, "in_fmt": i, "out_fmt": o, "log": lg, "pre": ob["pre"], "clobber": ob["clobber"], "empty": 1})
+        # histories: the same command run twice in one process into the same directory
+        for cl in (0, 1):
+            scen.append({"ref": ref, "root": root, "cfg": cfg, "in_fmt": i, "out_fmt": o, "log": lg, "pre": list(range(1, n + 1)), "clobber": cl, "rerun": 1})
     for t, s in enumerate(scen, 1):
         s["tid"] = t
     traces = C.pmap("harness.cli_engine", "clobber_case", scen, chunk=20)
